@@ -56,6 +56,12 @@ def _case(draw, part):
     if part != "linear":
         c["ham"] = draw(st.sampled_from(["pendulum_chain", "quartic"]))
         c["k"] = draw(st.sampled_from([0.0, 0.5, 1.0]))
+        # keep h x (local Lipschitz constant) moderate: the schemes have negative sub-steps and amplify rounding otherwise
+        c["q"] = [x / 2.0 for x in c["q"]]
+        c["p"] = [x / 2.0 for x in c["p"]]
+        c["h"] = math.copysign(min(abs(c["h"]), 0.1), c["h"])
+    if part == "energy":
+        c["layout"] = "default"
     return c
 
 
